@@ -569,9 +569,9 @@ class TensorDict(TensorDictBase):
                     if not inplace:
                         local_out = swap_tensor(module, key, value)
                     else:
-                        new_val = local_out
+                        new_val = getattr(module, key)
                         if return_swap:
-                            local_out = local_out.clone()
+                            local_out = new_val.clone()
                         new_val.data.copy_(value.data, non_blocking=non_blocking)
             else:
                 if __dict__ is not None:
